@@ -22,7 +22,7 @@ MASK_FOR = {'broken_ref': ['DaeBrokenRefError'], 'missing_p': ['DaeIncompleteErr
             'truncated': ['DaeMalformedError'], 'unknown_semantic': ['DaeUnsupportedError'], 'bad_index': ['DaeMalformedError'],
             'no_accessor': ['DaeIncompleteError'], 'bad_material_ref': ['DaeBrokenRefError']}
 EDITS = ['rename_geometry', 'add_node', 'add_geometry', 'effect_color', 'add_effect', 'ignore', 'remove_geometry',
-         'asset', 'query']
+         'asset', 'scale_vertices', 'scale_vertices', 'query', 'query', 'query']
 
 
 # ------------------------------------------------------------------ documents
@@ -50,7 +50,7 @@ def make_xml(rng, ns, damage):
         accessor = ''
     extra_input = '<input semantic="WEIRD" source="#%s-pos" offset="0"/>' % gid if damage == 'unknown_semantic' else ''
     p = '' if damage == 'missing_p' else '<p>%s</p>' % idx
-    use_poly = rng.random() < 0.4 and damage not in ('missing_p',)
+    use_poly = rng.random() < 0.5 and damage not in ('missing_p',)
     if use_poly:
         prim = ('<polylist count="%d" material="sym0"><input semantic="VERTEX" source="#%s-vtx" offset="0"/>%s'
                 '<vcount>%s</vcount>%s</polylist>' % (ntri, gid, extra_input, ' '.join(['3'] * ntri), p))
@@ -63,7 +63,7 @@ def make_xml(rng, ns, damage):
     image = rng.random() < 0.4
     xml = '''<?xml version="1.0" encoding="utf-8"?>
 <COLLADA xmlns="%(ns)s" version="1.4.1">
- <asset><created>2020-01-02T03:04:05</created><modified>2020-01-02T03:04:05</modified><up_axis>Z_UP</up_axis></asset>
+ %(asset)s
  %(images)s
  <library_effects><effect id="%(eid)s"><profile_COMMON><technique sid="common"><phong>
    <diffuse><color>%(col)s</color></diffuse><shininess><float>%(shin)d</float></shininess></phong></technique></profile_COMMON></effect></library_effects>
@@ -75,16 +75,51 @@ def make_xml(rng, ns, damage):
  </mesh></geometry></library_geometries>
  <library_visual_scenes><visual_scene id="scene0"><node id="node0" name="n"><translate>%(tx)d 0 1</translate>
    <instance_geometry url="%(url)s"><bind_material><technique_common><instance_material symbol="sym0" target="%(target)s"/></technique_common></bind_material></instance_geometry>
- </node></visual_scene></library_visual_scenes>
+ </node>%(node2)s</visual_scene></library_visual_scenes>
  <scene><instance_visual_scene url="#scene0"/></scene>
 </COLLADA>
 ''' % {'ns': ns, 'eid': eid, 'mid': mid, 'gid': gid, 'col': col, 'shin': rng.randint(1, 50), 'nf': 3 * nv, 'verts': verts,
+       'asset': '' if rng.random() < 0.3 else '<asset><created>2020-01-02T03:04:05</created><modified>2020-01-02T03:04:05</modified><up_axis>Z_UP</up_axis></asset>',
+       'node2': '<node id="node%d" name="second"><scale>1 %d 1</scale><instance_node url="#node%d"/></node>'
+                % (rng.randint(1, 2), rng.randint(1, 3), rng.choice([0, 0, 1, 2])) if rng.random() < 0.4 else '',
        'accessor': accessor, 'prim': prim, 'tx': tx, 'url': url, 'target': target,
        'images': '<library_images><image id="img0" name="img0"><init_from>./t%d.png</init_from></image></library_images>'
                  % rng.randint(0, 3) if image else ''}
     if damage == 'truncated':
         xml = xml[:len(xml) * 2 // 3]
     return xml
+
+
+def make_minimal_xml(rng, ns):
+    """scene-only document (nodes, transforms, optionally a camera): the kind the current tree can
+    also WRITE when its namespace is not the 1.4.1 one"""
+    def node(depth, counter):
+        counter[0] += 1
+        tr = ''.join(rng.choice(['<translate>%d %d 1</translate>' % (rng.randint(-3, 3), rng.randint(0, 4)),
+                                 '<rotate>0 0 1 %d</rotate>' % rng.choice([0, 90, 30]),
+                                 '<scale>1 %d 1</scale>' % rng.randint(1, 3)]) for _ in range(rng.randint(0, 3)))
+        kids = ''.join(node(depth + 1, counter) for _ in range(rng.choice([0, 0, 1, 2]) if depth < 2 else 0))
+        inst = '<instance_camera url="#cam0"/>' if cam and rng.random() < 0.5 else ''
+        if rng.random() < 0.35:
+            # instance of a node by id: an own top-level node, a library node, or an id this document
+            # does not define (ids come from the alphabet every document uses)
+            inst += '<instance_node url="#%s"/>' % rng.choice(['node0', 'node1', 'node2', 'libnode0'])
+        return '<node id="node%d" name="n%d">%s%s%s</node>' % (counter[0] % 3, counter[0], tr, inst, kids)
+    cam = rng.random() < 0.5
+    c = [0]
+    nodes = ''.join(node(0, c) for _ in range(rng.randint(1, 3)))
+    return '''<?xml version="1.0" encoding="utf-8"?>
+<COLLADA xmlns="%s" version="1.5.0">
+ <asset><created>2020-01-02T03:04:05</created><modified>2020-01-02T03:04:05</modified><up_axis>Y_UP</up_axis></asset>
+ %s
+ %s
+ <library_visual_scenes><visual_scene id="scene0">%s</visual_scene></library_visual_scenes>
+ <scene><instance_visual_scene url="#scene0"/></scene>
+</COLLADA>
+''' % (ns, '<library_nodes><node id="libnode0" name="lib"><translate>%d 0 0</translate></node></library_nodes>' % rng.randint(1, 9)
+       if rng.random() < 0.4 else '', '<library_cameras><camera id="cam0"><optics><technique_common><perspective><xfov>%d</xfov><znear>1</znear>'
+             '<zfar>10</zfar></perspective></technique_common></optics></camera></library_cameras>' % rng.randint(30, 60) if cam else '',
+       nodes)
 
 
 def gen_steps(rng, n):
@@ -97,6 +132,8 @@ def gen_steps(rng, n):
             steps.append(['snap'])
         else:
             steps.append(['edit', rng.choice(EDITS), rng.randint(0, 9)])
+    if rng.random() < 0.5:
+        steps.append(['edit', 'query', 0])
     if rng.random() < 0.7:
         steps.append(['save'])
     return steps
@@ -106,6 +143,12 @@ def gen_prog(rng, idx):
     r = rng.random()
     if r < 0.72:
         ns = rng.choice([NS141, NS141, NS150, NS150, 'urn:x-verif:%d' % rng.randint(0, 99), 'http://example.org/ns/%d' % rng.randint(0, 9)])
+        if rng.random() < (0.45 if ns != NS141 else 0.15):
+            src = {'kind': 'xml', 'xml': make_minimal_xml(rng, ns), 'ns': ns, 'damage': 'none', 'minimal': True}
+            steps = [['load']] + [rng.choice([['save'], ['save'], ['snap'], ['edit', 'asset', rng.randint(0, 9)],
+                                              ['edit', 'add_node', rng.randint(0, 9)], ['edit', 'query', 0]])
+                                  for _ in range(rng.randint(1, 4))] + [['save']]
+            return {'name': 'p%d' % idx, 'source': src, 'ignore': rng.choice(MASKS), 'steps': steps}
         damage = rng.choice(DAMAGE) if rng.random() < 0.6 else 'none'
         src = {'kind': 'xml', 'xml': make_xml(rng, ns, damage), 'ns': ns, 'damage': damage}
         # damaged documents mostly with a mask that lets (part of) them load, sometimes not
@@ -217,14 +260,10 @@ def evaluate(progs, solo, sched_payload, res):
                               'what': 'document %d step %d (%s) observed %s in the schedule but %s alone'
                                       % (i, k, step_name(step), json.dumps(s['obs'])[:160], json.dumps(want['obs'])[:160])})
                 break
-        for gch in res.get('global_changes', [])[:1]:
-            fails.append({'clause': 'global-state-changed', 'site': gch['changed'][0] if gch['changed'] else 'unknown',
-                          'what': 'step %s of document %d changed module-level state: %s' % (gch['step'], gch['doc'], gch['changed'][:4])})
-        for sh in res.get('shared', [])[:1]:
-            fails.append({'clause': 'shared-mutable-object', 'site': sh[4],
-                          'what': 'documents %d and %d both reach the same %s (%s / %s)' % (sh[0], sh[2], sh[4], sh[1][:80], sh[3][:80])})
     else:
-        for rnd in res['rounds']:
+        rounds_ = res['rounds'] if sched_payload['mode'] == 'threads' else [res]
+        label = 'threads' if sched_payload['mode'] == 'threads' else 'overlap'
+        for rnd in rounds_:
             for c in rnd['crashes'][:1]:
                 fails.append({'clause': 'crash-or-hang', 'site': 'thread:' + c[1], 'what': 'thread of document %d died: %s %s' % tuple(c)})
             for i, rs in enumerate(rnd['results']):
@@ -232,18 +271,14 @@ def evaluate(progs, solo, sched_payload, res):
                     want = solo[i]['steps'][k]
                     if s['digest'] != want['digest']:
                         step = progs[i]['steps'][k]
-                        fails.append({'clause': 'differs-from-solo', 'site': 'threads:%s:%s' % (step_name(step), first_difference(want['obs'], s['obs'])),
-                                      'what': 'under threads document %d step %d (%s) observed %s but %s alone'
-                                              % (i, k, step_name(step), json.dumps(s['obs'])[:160], json.dumps(want['obs'])[:160])})
+                        fails.append({'clause': 'differs-from-solo', 'site': '%s:%s:%s' % (label, step_name(step), first_difference(want['obs'], s['obs'])),
+                                      'what': '%s: document %d step %d (%s) observed %s but %s alone'
+                                              % ('under threads' if label == 'threads' else 'while document 0 was parked inside step %s at %s'
+                                                 % (sched_payload.get('gate_step'), rnd.get('where')), i, k, step_name(step),
+                                                 json.dumps(s['obs'])[:160], json.dumps(want['obs'])[:160])})
                         break
                 if fails:
                     break
-            if len(set(rnd['globals'])) > 1:
-                fails.append({'clause': 'global-state-changed', 'site': 'threads',
-                              'what': 'module-level state differs between barriers of a threaded run'})
-            for sh in rnd['shared'][:1]:
-                fails.append({'clause': 'shared-mutable-object', 'site': 'threads:' + sh[4],
-                              'what': 'documents %d and %d both reach the same %s (%s / %s)' % (sh[0], sh[2], sh[4], sh[1][:80], sh[3][:80])})
             if fails:
                 break
     return fails
@@ -253,7 +288,7 @@ def step_name(step):
     return step[0] if step[0] != 'edit' else 'edit-' + step[1]
 
 
-FIELDS = ['outcome', 'snapshot', 'errors', 'mask', 'tag', 'ids']
+FIELDS = ['outcome', 'snapshot', 'errors', 'mask', 'tag', 'ids', 'query-results']
 
 
 def first_difference(a, b):
@@ -287,6 +322,26 @@ def run(ctx):
     nthread = 16 if quick else 100
     rounds = 6 if quick else 10
     progs = [gen_prog(rng, i) for i in range(nprog)]
+    # the same source handled by several programs with different histories (anything keyed by
+    # file name, text or id across documents shows), and groups of 8 programs with one common
+    # step shape so that like steps (loads, saves, queries) overlap in the threaded runs
+    for i in range(nprog // 6):
+        j = rng.randrange(len(progs))
+        progs.append(dict(progs[j], name='p%d' % len(progs), ignore=rng.choice([progs[j]['ignore'], rng.choice(MASKS)]),
+                          steps=gen_steps(rng, rng.randint(2, 6))))
+    shapes = [[['load'], ['save'], ['edit', 'query', 0], ['save']],
+              [['load'], ['edit', 'add_node', 1], ['save'], ['edit', 'add_geometry', 2], ['edit', 'scale_vertices', 1], ['save']],
+              [['load'], ['edit', 'ignore', 1], ['edit', 'query', 0], ['edit', 'add_effect', 3], ['save']]]
+    groups = []
+    for shape in shapes[:(3 if nprog >= 60 else 1)]:
+        grp = []
+        for _ in range(8):
+            q = gen_prog(rng, len(progs))
+            q['steps'] = [list(x) for x in shape]
+            grp.append(len(progs))
+            progs.append(q)
+        groups.append(grp)
+    nprog = len(progs)
     ctx.log('solo runs: %d document programs, one fresh process each' % nprog)
     solo = run_many([{'mode': 'solo', 'prog': p} for p in progs])
     usable = [i for i, s in enumerate(solo) if 'crashed' not in s]
@@ -308,10 +363,27 @@ def run(ctx):
         pick = [rng.choice(usable) for _ in range(k)]
         ps = [progs[i] for i in pick]
         payloads.append(({'mode': 'sched', 'progs': ps, 'schedule': gen_schedule(rng, ps)}, pick))
-    for _ in range(nthread):
-        pick = [rng.choice(usable) for _ in range(8)]
+    for t in range(nthread):
+        if t % 2 == 0 and groups and all(i in usable for i in groups[(t // 2) % len(groups)]):
+            pick = list(groups[(t // 2) % len(groups)])
+        else:
+            pick = [rng.choice(usable) for _ in range(8)]
         payloads.append(({'mode': 'threads', 'progs': [progs[i] for i in pick], 'rounds': rounds}, pick))
-    ctx.log('running %d sequential schedules and %d threaded runs (8 threads, %d rounds each)' % (nsched, nthread, rounds))
+    ngated = 120 if quick else 1500
+    io_steps = lambda p: [k for k, st in enumerate(p['steps']) if st[0] in ('load', 'save') or st[:2] == ['edit', 'query']]
+    writers = [i for i in usable if any(o['obs'][0] == 'bytes' for o in solo[i]['steps'])]
+    foreign_writers = [i for i in writers if progs[i]['source'].get('ns') not in (None, NS141)]
+    for n in range(ngated):
+        # the parked document: half of the time one in another namespace whose write succeeds
+        a = rng.choice(foreign_writers) if foreign_writers and n % 2 == 0 else rng.choice(usable)
+        rest = [rng.choice(writers or usable) for _ in range(rng.choice([1, 1, 2]))]
+        ks = io_steps(progs[a])
+        saves = [k for k in ks if progs[a]['steps'][k][0] == 'save']
+        k = rng.choice(saves) if saves and rng.random() < 0.6 else rng.choice(ks)
+        pick = [a] + rest
+        payloads.append(({'mode': 'gated', 'progs': [progs[i] for i in pick], 'gate_step': k}, pick))
+    ctx.log('running %d sequential schedules, %d threaded runs (8 threads, %d rounds each) and %d gated overlaps'
+            % (nsched, nthread, rounds, ngated))
     results = run_many([p for p, _ in payloads], timeout=600)
     terms, case_inputs = [], []
     dist = {'schedules': 0, 'threaded_runs': 0, 'thread_rounds': 0, 'steps': 0, 'loads_failed': 0, 'saves': 0,
@@ -332,10 +404,31 @@ def run(ctx):
             sched_obs = [(s['doc'], s['digest']) for s in res['steps']]
             gl = [(s['g_before'], s['g_after']) for s in res['steps']]
             terms.append(c_case(len(ps), sched_obs, solo_d, gl, len(res['shared'])))
-            case_inputs.append(payload)
+            case_inputs.append((payload, {'global_changes': res.get('global_changes', [])[:3], 'shared': res['shared'][:3]}))
             dist['steps'] += len(sched_obs)
             if len(ps) >= 2 and len(set(payload['schedule'])) >= 2:
                 seen.add(core.canon_hash([[p['name'] for p in ps], payload['schedule']]))
+        elif payload['mode'] == 'gated':
+            dist['gated_overlaps'] = dist.get('gated_overlaps', 0) + 1
+            dist['gated_parked'] = dist.get('gated_parked', 0) + bool(res['parked'])
+            w = 'parked_in:%s' % res.get('where')
+            dist[w] = dist.get(w, 0) + 1
+            a_ns = ps[0]['source'].get('ns')
+            if res['parked'] and res.get('where') == 'sink.write' and a_ns not in (None, NS141) \
+                    and any(x['obs'][0] == 'bytes' for rs in res['results'][1:] for x in rs):
+                dist['gated_foreign_write_in_flight_while_other_writes'] = dist.get('gated_foreign_write_in_flight_while_other_writes', 0) + 1
+            kA = payload['gate_step']
+            ra = res['results'][0]
+            sched_obs = [(0, x['digest']) for x in ra[:kA + 1]]
+            for i, rs in enumerate(res['results'][1:], 1):
+                sched_obs += [(i, x['digest']) for x in rs]
+            sched_obs += [(0, x['digest']) for x in ra[kA + 1:]]
+            terms.append(c_case(len(ps), sched_obs, solo_d, [tuple(g) for g in res['globals']], len(res['shared']) + len(res['crashes'])))
+            case_inputs.append((payload, {'global_changes': res.get('global_changes', [])[:3], 'shared': res['shared'][:3],
+                                          'parked_in': res.get('where')}))
+            dist['steps'] += len(sched_obs)
+            if res['parked']:
+                seen.add(core.canon_hash(['gated', [p['name'] for p in ps], kA]))
         else:
             dist['threaded_runs'] += 1
             for rnd in res['rounds']:
@@ -345,7 +438,7 @@ def run(ctx):
                 if rnd['globals']:
                     gl = [(rnd['globals'][0], g) for g in rnd['globals']]
                 terms.append(c_case(len(ps), sched_obs, solo_d, gl, len(rnd['shared']) + len(rnd['crashes'])))
-                case_inputs.append(payload)
+                case_inputs.append((payload, {'global_digests_at_barriers': len(set(rnd['globals'])), 'shared': rnd['shared'][:3]}))
                 dist['steps'] += len(sched_obs)
             seen.add(core.canon_hash(['threads', [p['name'] for p in ps]]))
     for p, s in zip(progs, solo):
@@ -366,7 +459,8 @@ def run(ctx):
                 dist['saves_raised'] += o['obs'][0] == 'raised'
     ctx.log('evaluating the projection comparison inside Coq (%d cases)' % len(terms))
     bad, errors = core.coq_eval_cases(ctx, HEADER, CASE_TYPE, terms, 'C20.mismatches', chunk=60)
-    mismatches = [{'case_index': i, 'input': case_inputs[i], 'explained_by_known': False} for i in bad[:10]]
+    mismatches = [{'case_index': i, 'input': case_inputs[i][0], 'footprint_measured': case_inputs[i][1],
+                   'explained_by_known': False} for i in bad[:10]]
     # one failure per signature
     uniq, sigs = [], set()
     for f in failures:
@@ -389,7 +483,28 @@ def run(ctx):
     }
 
     def search(mm):
-        return []
+        # the footprint (or a proof) broke without an observation differing from its solo run:
+        # look harder - more interleavings and threaded rounds, preferring the programs involved
+        involved = [p for m in mm for p in m['input']['progs']] or [progs[i] for i in usable]
+        names = {p['name']: p for p in involved}
+        pool = list(names.values()) + [progs[i] for i in usable[:20]]
+        solo_of = {p['name']: s for p, s in zip(progs, solo)}
+        extra = []
+        for _ in range(200):
+            ps = [rng.choice(pool) for _ in range(rng.choice([2, 3, 4]))]
+            extra.append({'mode': 'sched', 'progs': ps, 'schedule': gen_schedule(rng, ps)})
+        for _ in range(12):
+            extra.append({'mode': 'threads', 'progs': [rng.choice(pool) for _ in range(8)], 'rounds': 8})
+        for _ in range(150):
+            a = rng.choice(pool)
+            ks = [k for k, st in enumerate(a['steps']) if st[0] in ('load', 'save') or st[:2] == ['edit', 'query']]
+            extra.append({'mode': 'gated', 'progs': [a, rng.choice(pool)], 'gate_step': rng.choice(ks)})
+        found = []
+        for payload, res in zip(extra, run_many(extra, timeout=600)):
+            for f in evaluate(payload['progs'], [solo_of[p['name']] for p in payload['progs']], payload, res):
+                found.append({'signature': 'C20:%s:%s' % (f['clause'], f['site']), 'clause': f['clause'], 'what': f['what'],
+                              'input': payload, 'detail': f})
+        return found[:6]
 
     return core.finish(
         ctx, obligations=obl, regen=regen, build_ok=build_ok, corr=corr, failures=uniq[:6], search=search,
@@ -415,7 +530,7 @@ def replay(ctx, body):
         if 'crashed' in s:
             fails.append({'clause': 'crash-or-hang', 'site': 'solo', 'what': s['crashed'][-200:]})
     if not fails and payload['mode'] != 'solo':
-        for _ in range(3 if payload['mode'] == 'threads' else 1):
+        for _ in range(3 if payload['mode'] == 'threads' else 1):  # gated and sequential runs are deterministic
             res = run_mode(payload, timeout=600)
             fails = evaluate(progs, solo, payload, res)
             if fails:
